@@ -13,6 +13,9 @@ package main
 // def_var_multi def_var_multi_init def_short_multi assign assign_multi swap compound compound_str
 // incdec slice_lit slice_alias slice_set slice_grow copy index subscript concat itoa and or not
 // logical_mix cmp_chain neg_literal minus_minus name_reuse mutated_invalid.
+// Hand-written shapes (Safe mode, about every tenth program each, at most two per program):
+// multi_rhs_ref multi_nested_call empty_branch_mid slice_in_loop big_copy same_cond_chain
+// else_only_if call_stmt_nested len_pair loop_calls_loopfn many_params.
 
 import (
 	"fmt"
@@ -87,6 +90,7 @@ type pgSym struct {
 	dirty             bool   // string that may carry leading/trailing/double blanks (never stored in a []string)
 	defMult           int    // multiplicity of the defining position
 	idxOf             *pgSym // index variable that is in range for this string / slice
+	hidden            bool   // reserved name of a hand-written fragment, never picked by the generic machinery
 	fnReassigned      bool   // global slice or string reassigned inside a function: minLen is never raised
 }
 
@@ -131,24 +135,28 @@ type pgCtx struct {
 }
 
 type pgGen struct {
-	r       *rand.Rand
-	o       GenOpts
-	feat    map[string]int
-	scopes  [][]*pgSym
-	funcs   []*pgFunc
-	fn      *pgFunc // function whose body is generated
-	fnRets  []pgRet
-	out     []string
-	used    map[string]int // definitions per identifier so far
-	work    int
-	grow    int    // used part of pgGrowMax
-	rngLock [3]int // active range loops per slice element type
-	mutate  int    // countdown to the one invalid statement (unsafe programs), -1: none
-	fnames  int
-	fnPure  bool // the function being generated must not have side effects
-	fnBase  int  // declared number of calls of the function being generated
-	raises  []pgRaise
-	lineMax int // no new constructs beyond this number of lines
+	r        *rand.Rand
+	o        GenOpts
+	feat     map[string]int
+	scopes   [][]*pgSym
+	funcs    []*pgFunc
+	fn       *pgFunc // function whose body is generated
+	fnRets   []pgRet
+	out      []string
+	used     map[string]int // definitions per identifier so far
+	work     int
+	grow     int    // used part of pgGrowMax
+	rngLock  [3]int // active range loops per slice element type
+	mutate   int    // countdown to the one invalid statement (unsafe programs), -1: none
+	fnames   int
+	fnTaken  map[string]bool
+	fnPure   bool // the function being generated must not have side effects
+	fnBase   int  // declared number of calls of the function being generated
+	raises   []pgRaise
+	lineMax  int  // no new constructs beyond this number of lines
+	nestWant bool // callText: make an argument a call if possible
+	nestGot  bool
+	force    bool // maxIter ignores the line budget (while a hand-written shape is emitted)
 }
 
 var pgNames = []string{"a", "b", "c", "i", "j", "k", "n", "m", "s", "t", "u", "v", "x", "y", "z",
@@ -187,7 +195,7 @@ func (g *pgGen) visible(keep func(*pgSym) bool) []*pgSym {
 	out := []*pgSym{}
 	for _, fr := range g.scopes {
 		for _, s := range fr {
-			if keep == nil || keep(s) {
+			if !s.hidden && (keep == nil || keep(s)) {
 				out = append(out, s)
 			}
 		}
@@ -542,8 +550,12 @@ func (g *pgGen) callText(fn *pgFunc, c pgCtx) pgExpr {
 	for _, pa := range fn.params {
 		var a pgExpr
 		nested, isCall := pgExpr{}, false
-		if g.p(30) {
+		if g.p(30) || (g.nestWant && !g.nestGot) {
 			nested, isCall = g.callOf(pa.ty, ca, pa.minLen)
+			if isCall && pa.ty == pgStr && g.o.Safe && nested.bnd > pa.abs {
+				isCall = false // accounted but unused, which is only conservative
+			}
+			g.nestGot = g.nestGot || isCall
 		}
 		switch {
 		case isCall && pa.ty == pgInt:
@@ -1731,6 +1743,13 @@ func (g *pgGen) loopCtx(c pgCtx, n int) pgCtx {
 
 // maxIter is the largest number of iterations a new loop may have at this position (0: none).
 func (g *pgGen) maxIter(c pgCtx) int {
+	if g.force {
+		// hand-written shapes bring their own small loops
+		if g.work > pgWorkMax+150 {
+			return 0
+		}
+		return pgMultMax / c.mult
+	}
 	if len(g.out) > g.lineMax || g.work > pgWorkMax {
 		return 0
 	}
@@ -2040,6 +2059,11 @@ func (g *pgGen) stmt(c pgCtx) {
 	if g.mutate > 0 {
 		g.mutate--
 	}
+	if g.o.Safe && c.depth > 0 && len(g.out) <= g.lineMax && g.p(1) {
+		if []func(pgCtx) bool{g.idMultiRef, g.idEmptyBranch, g.idLenPair}[g.rn(3)](c) {
+			return
+		}
+	}
 	nested := c.depth < g.o.MaxDepth-1 && len(g.out) <= g.lineMax
 	pc := []int{38, 50, 45, 30, 20, 10}[pgMin(c.depth, 5)]
 	if nested && g.p(pc) {
@@ -2151,11 +2175,9 @@ func (g *pgGen) stInvalid(c pgCtx) {
 
 // ---- functions ----
 
-func (g *pgGen) genFunc() {
-	name := pgFuncNames[g.fnames%len(pgFuncNames)]
-	if g.fnames >= len(pgFuncNames) {
-		name += fmt.Sprint(g.fnames)
-	}
+// genFunc emits a function with np parameters (np < 0: zero to three).
+func (g *pgGen) genFunc(np int) *pgFunc {
+	name := g.fnName(pgFuncNames[g.fnames%len(pgFuncNames)])
 	g.fnames++
 	fn := &pgFunc{name: name, writes: map[*pgSym]bool{}}
 	tys := []pgTy{pgInt, pgInt, pgInt, pgBool, pgStr}
@@ -2167,7 +2189,10 @@ func (g *pgGen) genFunc() {
 	g.fn, g.fnBase = fn, base
 	g.push()
 	sig := []string{}
-	for n := g.rn(4); n > 0; n-- {
+	if np < 0 {
+		np = g.rn(4)
+	}
+	for n := np; n > 0; n-- {
 		ty := tys[g.rn(len(tys))]
 		pn := g.fresh()
 		var s *pgSym
@@ -2245,6 +2270,10 @@ func (g *pgGen) genFunc() {
 		}
 		fn.cost++
 	}
+	if np >= 9 {
+		g.useAllParams(fn, c)
+		g.f("many_params")
+	}
 	n := g.rn(g.o.MaxStmts + 1)
 	if len(fn.rets) == 0 && n == 0 && g.p(90) {
 		n = 1
@@ -2268,6 +2297,7 @@ func (g *pgGen) genFunc() {
 	fn.budget = base
 	g.fn, g.fnRets, g.fnPure, g.fnBase = nil, nil, false, 0
 	g.funcs = append(g.funcs, fn)
+	return fn
 }
 
 // ---- program ----
@@ -2286,7 +2316,7 @@ func GenProgram(r *rand.Rand, o GenOpts) (src string, features map[string]int) {
 	if o.MaxStmts > 6 {
 		o.MaxStmts = 6
 	}
-	g := &pgGen{r: r, o: o, feat: map[string]int{}, used: map[string]int{}, mutate: -1}
+	g := &pgGen{r: r, o: o, feat: map[string]int{}, used: map[string]int{}, mutate: -1, fnTaken: map[string]bool{}}
 	g.lineMax = 4 + g.rn(40)
 	if !o.Safe && g.p(15) {
 		g.mutate = g.rn(14)
@@ -2298,14 +2328,33 @@ func GenProgram(r *rand.Rand, o GenOpts) (src string, features map[string]int) {
 	if o.Funcs {
 		nf = 1 + g.rn(4)
 	}
+	// hand-written shapes, each in about every tenth program, at random top-level positions
+	shapes := []func(pgCtx) bool{}
+	if o.Safe {
+		for _, sh := range []func(pgCtx) bool{g.idMultiRef, g.idMultiNested, g.idEmptyBranch, g.idSliceInLoop, g.idBigCopy,
+			g.idSameCondChain, g.idElseOnlyIf, g.idCallStmtNested, g.idLenPair, g.idLoopCallsLoopFn, g.idManyParams} {
+			if g.p(14) {
+				shapes = append(shapes, sh)
+			}
+		}
+		g.r.Shuffle(len(shapes), func(i, j int) { shapes[i], shapes[j] = shapes[j], shapes[i] })
+		if len(shapes) > 2 {
+			shapes = shapes[:2]
+		}
+		g.lineMax = pgMax(4, g.lineMax-13*len(shapes))
+	}
 	// some globals first so that functions have something to see
 	for n := g.rn(3); n > 0; n-- {
 		g.stDef(c)
 		g.tick(c, 1)
 	}
 	for i := 0; i < items || nf > 0; i++ {
+		if len(shapes) > 0 && g.p(35) {
+			g.shape(shapes[0], c)
+			shapes = shapes[1:]
+		}
 		if nf > 0 && (g.p(45) || i >= items) && (len(g.out) <= g.lineMax || len(g.funcs) == 0) {
-			g.genFunc()
+			g.genFunc(-1)
 			nf--
 			if g.p(50) {
 				continue
@@ -2328,6 +2377,9 @@ func GenProgram(r *rand.Rand, o GenOpts) (src string, features map[string]int) {
 			}
 		}
 		g.stmt(c)
+	}
+	for _, sh := range shapes {
+		g.shape(sh, c)
 	}
 	for len(g.out) < 4 {
 		g.stmt(c)
@@ -2507,4 +2559,1182 @@ func genSelfTest(seed int64, n int) int {
 		fmt.Fprintf(os.Stderr, "  %-22s %5d programs\n", k, total[k])
 	}
 	return fails
+}
+
+// ---- hand-written shapes (each with its own feature key) ----
+
+// fnName yields a function name that is not in use, preferring the given ones.
+func (g *pgGen) fnName(pref ...string) string {
+	taken := func(n string) bool {
+		for _, fn := range g.funcs {
+			if fn.name == n {
+				return true
+			}
+		}
+		return g.fn != nil && g.fn.name == n || g.fnTaken[n]
+	}
+	start := g.rn(len(pref))
+	for i := range pref {
+		if n := pref[(start+i)%len(pref)]; !taken(n) {
+			g.fnTaken[n] = true
+			return n
+		}
+	}
+	for i := 2; ; i++ {
+		if n := fmt.Sprintf("%s%d", pref[start], i); !taken(n) {
+			g.fnTaken[n] = true
+			return n
+		}
+	}
+}
+
+// handOpen starts a hand-written function and reserves fresh parameter names.
+func (g *pgGen) handOpen(name string, ptys []pgTy, ret string) []string {
+	g.push()
+	names, sig := []string{}, []string{}
+	for _, t := range ptys {
+		n := g.fresh(names...)
+		names = append(names, n)
+		g.define(&pgSym{name: n, ty: t, hidden: true}, pgCtx{mult: 1})
+		sig = append(sig, n+" "+t.String())
+	}
+	if ret != "" {
+		ret = " " + ret
+	}
+	g.line(0, "func "+name+"("+strings.Join(sig, ", ")+")"+ret+" {")
+	g.f("func")
+	return names
+}
+
+// handLocal reserves a fresh name for a local variable of a hand-written body.
+func (g *pgGen) handLocal(ty pgTy) string {
+	n := g.fresh()
+	g.define(&pgSym{name: n, ty: ty, hidden: true}, pgCtx{mult: 1})
+	return n
+}
+
+func (g *pgGen) handClose() {
+	g.pop()
+	g.line(0, "}")
+}
+
+// regFunc makes a hand-written function callable by the generic machinery.
+func (g *pgGen) regFunc(name string, params []*pgSym, rets []pgRet, budget int, cost int, effects bool, writes ...*pgSym) *pgFunc {
+	fn := &pgFunc{name: name, params: params, rets: rets, budget: budget, cost: cost, effects: effects, writes: map[*pgSym]bool{}}
+	for _, w := range writes {
+		fn.writes[w] = true
+	}
+	g.funcs = append(g.funcs, fn)
+	return fn
+}
+
+func pgIntParam(abs int) *pgSym { return &pgSym{ty: pgInt, abs: abs, cur: abs, hi: abs, fac: 1} }
+
+// spend accounts n executions of a hand-written call of fn at position c.
+func (g *pgGen) spend(fn *pgFunc, c pgCtx, n int) {
+	fn.budget -= n * c.mult
+	fn.called++
+	g.tick(c, n*fn.cost)
+	for i := 0; i < n; i++ {
+		g.f("call")
+	}
+	if g.fn != nil {
+		g.fn.effects = g.fn.effects || fn.effects
+		for s := range fn.writes {
+			g.fn.writes[s] = true
+		}
+	}
+}
+
+// relTarget yields an int variable that may be increased by d here (a fresh one if none has the room).
+func (g *pgGen) relTarget(c pgCtx, d int) *pgSym {
+	l := g.writable(pgInt)
+	for try := 0; try < 4 && len(l) > 0; try++ {
+		s := l[g.rn(len(l))]
+		if m := g.relMult(s, c); (s.cur+m*d)*s.fac <= s.hi {
+			s.cur += m * d
+			g.wrote(s)
+			return s
+		}
+	}
+	n := g.fresh()
+	g.line(g.ind(c), n+" := "+fmt.Sprint(g.rn(10)))
+	s := g.define(g.newInt(n, 9), c)
+	s.cur += d
+	return s
+}
+
+func (g *pgGen) ref(s *pgSym) pgExpr {
+	return pgExpr{s: s.name, prec: 6, bnd: g.intBound(s)}
+}
+
+// shape emits one hand-written shape; its own loops are not subject to the line budget.
+func (g *pgGen) shape(sh func(pgCtx) bool, c pgCtx) bool {
+	g.force = true
+	ok := sh(c)
+	g.force = false
+	return ok
+}
+
+// idMultiRef: multi-target statements whose right-hand sides reference earlier targets.
+func (g *pgGen) idMultiRef(c pgCtx) bool {
+	in := g.ind(c)
+	k := g.rn(5)
+	if k == 4 && (g.maxIter(c) < 2 || c.depth+1 >= g.o.MaxDepth) {
+		k = g.rn(4)
+	}
+	switch k {
+	case 0, 1:
+		d := 1 + g.rn(3)
+		n := g.relTarget(c, d)
+		inc := n.name + " + " + fmt.Sprint(d)
+		if !g.o.Strings {
+			// n, t = n + d, (n) * 2
+			t := g.pick(g.writable(pgInt))
+			if t == nil || t == n {
+				tn := g.fresh()
+				g.line(in, "var "+tn+" int")
+				t = g.define(g.newInt(tn, 99), c)
+			}
+			v := g.bin(pgParen(g.ref(n)), "*", 5, pgExpr{s: "2", prec: 6})
+			v.bnd = 2 * g.intBound(n)
+			v = g.fit(v, t.abs)
+			g.line(in, fmt.Sprintf("%s, %s = %s, %s", n.name, t.name, inc, v.s))
+			g.wrote(t)
+			break
+		}
+		pre := ""
+		if k == 1 {
+			pre = g.strText(1 + g.rn(2))
+		}
+		need := 7 + len(pre)
+		var s *pgSym
+		for _, cand := range g.writable(pgStr) {
+			if cand.abs >= need && cand.minLen <= 1+len(pre) {
+				s = cand
+			}
+		}
+		if s == nil {
+			sn := g.fresh()
+			l := g.strLit(0, 3)
+			g.line(in, sn+" := "+l.s)
+			s = g.define(g.newStr(sn, l), c)
+			s.abs, s.minLen = pgMax(s.abs, need), pgMin(s.minLen, 1)
+			s.hi, s.cur = pgMax(s.hi, s.abs), s.abs
+		}
+		val := "itoa(" + n.name + ")"
+		if g.p(30) {
+			val = "itoa((" + n.name + "))"
+		}
+		if pre != "" {
+			val = `"` + pre + `" + ` + val
+		}
+		g.line(in, fmt.Sprintf("%s, %s = %s, %s", n.name, s.name, inc, val))
+		g.wrote(s)
+		g.f("itoa")
+	case 2:
+		// a, b = (b), (a)
+		ty := []pgTy{pgInt, pgInt, pgBool, pgStr}[g.rn(4)]
+		n1 := g.fresh()
+		n2 := g.fresh(n1)
+		e1, e2 := g.genExpr(ty, c, 1), g.genExpr(ty, c, 1)
+		g.line(in, fmt.Sprintf("%s, %s := %s, %s", n1, n2, e1.s, e2.s))
+		e1.bnd, e1.minLen, e1.dirty = pgMax(e1.bnd, e2.bnd), pgMin(e1.minLen, e2.minLen), e1.dirty || e2.dirty
+		s1 := g.define(g.newSym(n1, ty, e1), c)
+		s2 := *s1
+		s2.name = n2
+		g.define(&s2, c)
+		s1.cur, s2.cur = s1.hi, s2.hi
+		l, r := "("+n2+")", "("+n1+")"
+		if g.p(30) {
+			r = n1
+		}
+		g.line(in, fmt.Sprintf("%s, %s = %s, %s", n1, n2, l, r))
+		g.line(in, fmt.Sprintf("print(%s, %s)", n1, n2))
+		if g.fn != nil && g.fnPure {
+			g.out = g.out[:len(g.out)-1]
+		}
+		g.f("swap")
+	case 3:
+		// x, y, z = y, z, x
+		ns := []string{}
+		es := []string{}
+		bnd := 0
+		for i := 0; i < 3; i++ {
+			ns = append(ns, g.fresh(ns...))
+			e := g.fit(g.genInt(c, 1), 99)
+			bnd = pgMax(bnd, e.bnd)
+			es = append(es, e.s)
+		}
+		g.line(in, strings.Join(ns, ", ")+" := "+strings.Join(es, ", "))
+		for _, n := range ns {
+			s := g.define(g.newInt(n, pgMax(bnd, 99)), c)
+			s.abs, s.cur = pgMax(bnd, 99), s.hi
+		}
+		rot := fmt.Sprintf("%s, %s, %s = %s, %s, %s", ns[0], ns[1], ns[2], ns[1], ns[2], ns[0])
+		if g.p(30) {
+			rot = fmt.Sprintf("%s, %s, %s = %s, %s, (%s)", ns[0], ns[1], ns[2], ns[1], ns[2], ns[0])
+		}
+		pr := "print(" + strings.Join(ns, ", ") + ")"
+		pure := g.fn != nil && g.fnPure
+		if g.maxIter(c) >= 2 && g.p(50) {
+			g.push()
+			r := g.fresh()
+			g.define(g.counter(r, 0, 1), c)
+			g.line(in, fmt.Sprintf("for %s := 0; %s < 2; %s++ {", r, r, r))
+			g.line(in+1, rot)
+			if !pure {
+				g.line(in+1, pr)
+			}
+			g.line(in, "}")
+			g.pop()
+			g.construct(c, "for3")
+			g.tick(c, 4)
+		} else {
+			g.line(in, rot)
+			if !pure {
+				g.line(in, pr)
+			}
+		}
+	default:
+		// for i := 0; i < N; i, k = i + 1, (i) {
+		n := 2 + g.rn(pgMin(g.maxIter(c), 4)-1)
+		kn := g.fresh()
+		g.line(in, kn+" := 0")
+		ks := g.define(g.counter(kn, 0, pgMax(n-2, 0)), c)
+		g.push()
+		iname := g.fresh()
+		g.define(g.counter(iname, 0, n-1), c)
+		prev := "(" + iname + ")"
+		if g.p(30) {
+			prev = iname + " * 1"
+		}
+		g.line(in, fmt.Sprintf("for %s := 0; %s < %d; %s, %s = %s + 1, %s {", iname, iname, n, iname, kn, iname, prev))
+		g.construct(c, "for3")
+		ci := g.loopCtx(c, n)
+		g.body(ci, func() {
+			if !(g.fn != nil && g.fnPure) {
+				g.line(g.ind(ci), fmt.Sprintf("print(%s, %s)", iname, kn))
+			}
+		}, false)
+		g.pop()
+		g.line(in, "}")
+		g.release(ks, n)
+	}
+	g.tick(c, 2)
+	g.f("multi_rhs_ref")
+	return true
+}
+
+// idMultiNested: a multi-target assignment whose later value calls a function that itself
+// executes a multi-target assignment (directly or through a nested call).
+func (g *pgGen) idMultiNested(c pgCtx) bool {
+	if !g.o.Funcs {
+		return false
+	}
+	fname := g.fnName("smaller", "lower", "least", "order")
+	ps := g.handOpen(fname, []pgTy{pgInt, pgInt}, "int")
+	u, v := ps[0], ps[1]
+	switch g.rn(3) {
+	case 0:
+		g.line(1, fmt.Sprintf("if %s > %s {", u, v))
+		g.line(2, fmt.Sprintf("%s, %s = %s, %s", u, v, v, u))
+		g.line(1, "}")
+		g.line(1, "return "+u)
+		g.f("if")
+		g.f("swap")
+	case 1:
+		g.line(1, fmt.Sprintf("%s, %s = %s, (%s) %% 50 + 1", u, v, v, u))
+		g.line(1, fmt.Sprintf("return (%s - %s) %% 100", u, v))
+		g.f("assign_multi")
+	default:
+		t := g.handLocal(pgInt)
+		g.line(1, fmt.Sprintf("var %s int", t))
+		g.line(1, fmt.Sprintf("%s, %s = %s, %s", t, u, u, v))
+		g.line(1, fmt.Sprintf("return (%s + %s) %% 1000", t, u))
+		g.f("assign_multi")
+	}
+	g.handClose()
+	fn := g.regFunc(fname, []*pgSym{pgIntParam(999), pgIntParam(999)}, []pgRet{{ty: pgInt, abs: 999}}, 8, 4, false)
+	callee, arity := fn, 2
+	if g.p(40) {
+		wname := g.fnName("outer", "wrap", "via", "relay")
+		ps := g.handOpen(wname, []pgTy{pgInt}, "int")
+		r := g.handLocal(pgInt)
+		g.line(1, fmt.Sprintf("%s := %s(%s, %d) + 1", r, fname, ps[0], g.rn(10)))
+		g.line(1, "return "+r)
+		g.handClose()
+		fn.budget -= 3
+		fn.called++
+		g.f("call")
+		callee, arity = g.regFunc(wname, []*pgSym{pgIntParam(999)}, []pgRet{{ty: pgInt, abs: 1000}}, 3, 6, false), 1
+	}
+	n1 := g.fresh()
+	n2 := g.fresh(n1)
+	e1, e2 := g.fit(g.genInt(c, 1), 99), g.fit(g.genInt(c, 1), 99)
+	g.line(0, fmt.Sprintf("%s, %s := %s, %s", n1, n2, e1.s, e2.s))
+	a, b := g.define(g.newInt(n1, 1000), c), g.define(g.newInt(n2, 1000), c)
+	arg := func(s *pgSym) string { return g.fit(g.ref(s), 999).s }
+	call := func(x, y string) string {
+		g.spend(callee, c, 1)
+		if arity == 1 {
+			return callee.name + "(" + x + ")"
+		}
+		return callee.name + "(" + x + ", " + y + ")"
+	}
+	first := g.bin(g.ref(b), "+", 4, pgExpr{s: fmt.Sprint(1 + g.rn(20)), prec: 6})
+	first.bnd = g.intBound(b) + 20
+	first = g.fit(first, 99)
+	switch g.rn(3) {
+	case 0:
+		g.line(0, fmt.Sprintf("%s, %s = %s, %s", a.name, b.name, first.s, call(fmt.Sprint(g.rn(10)), fmt.Sprint(g.rn(10)))))
+	case 1:
+		g.line(0, fmt.Sprintf("%s, %s = %s, %s", a.name, b.name, first.s, call(arg(a), arg(b))))
+	default:
+		n3 := g.fresh()
+		g.line(0, "var "+n3+" int")
+		x := g.define(g.newInt(n3, 1000), c)
+		g.line(0, fmt.Sprintf("%s, %s, %s = %s, %s, %s", a.name, b.name, x.name, first.s, call(arg(a), fmt.Sprint(g.rn(10))), call(arg(b), arg(a))))
+	}
+	g.line(0, fmt.Sprintf("print(%s, %s)", a.name, b.name))
+	g.tick(c, 3)
+	g.f("assign_multi")
+	g.f("multi_nested_call")
+	return true
+}
+
+// idEmptyBranch: an if chain or switch whose non-first branch is empty, is followed by further
+// branches and is the one taken for some value of a loop counter.
+func (g *pgGen) idEmptyBranch(c pgCtx) bool {
+	if c.depth+1 >= g.o.MaxDepth {
+		return false
+	}
+	in := g.ind(c)
+	var cv *pgSym
+	own := false
+	ci := c
+	if l := g.symsOf(pgInt, func(s *pgSym) bool { return s.cnt && s.chi-s.lo >= 2 }); len(l) > 0 && g.p(50) {
+		cv = l[g.rn(len(l))]
+	} else {
+		mx := g.maxIter(c)
+		if mx < 3 {
+			return false
+		}
+		n := 3 + g.rn(pgMin(mx, 5)-2)
+		g.push()
+		cv = g.define(g.counter(g.fresh(), 0, n-1), c)
+		g.line(in, fmt.Sprintf("for %s := 0; %s < %d; %s++ {", cv.name, cv.name, n, cv.name))
+		g.construct(c, "for3")
+		ci = g.loopCtx(c, n)
+		own = true
+	}
+	in2 := g.ind(ci)
+	// distinct values of the counter: first branch, empty branch, optional third branch
+	span := cv.chi - cv.lo + 1
+	off := g.r.Perm(span)
+	vals := []int{cv.lo + off[0], cv.lo + off[1]}
+	if span >= 4 && g.p(50) {
+		vals = append(vals, cv.lo+off[2])
+	}
+	cb := g.inner(ci)
+	switch form := g.rn(3); form {
+	case 0:
+		g.construct(ci, "if")
+		for i, v := range vals {
+			cond := fmt.Sprintf("%s == %d", cv.name, v)
+			if i == 0 {
+				g.line(in2, "if "+cond+" {")
+			} else {
+				g.line(in2, "} else if "+cond+" {")
+				g.f("elseif")
+			}
+			if i != 1 {
+				g.body(cb, nil, false)
+			}
+		}
+		g.line(in2, "} else {")
+		g.f("else")
+		g.body(cb, nil, false)
+		g.line(in2, "}")
+	default:
+		cb.brk = false
+		if form == 1 {
+			g.line(in2, "switch "+cv.name+" {")
+			g.construct(ci, "switch")
+		} else {
+			g.line(in2, "switch {")
+			g.construct(ci, "switch_notag")
+		}
+		for i, v := range vals {
+			if form == 1 {
+				g.line(in2, fmt.Sprintf("case %d:", v))
+			} else {
+				g.line(in2, fmt.Sprintf("case %s == %d:", cv.name, v))
+			}
+			g.f("case")
+			if i != 1 {
+				g.body(cb, nil, false)
+			}
+		}
+		g.line(in2, "default:")
+		g.f("default")
+		g.body(cb, nil, false)
+		g.line(in2, "}")
+	}
+	if own {
+		g.pop()
+		g.line(in, "}")
+	}
+	g.f("empty_branch_mid")
+	return true
+}
+
+// idLenPair: two len() calls in one expression.
+func (g *pgGen) idLenPair(c pgCtx) bool {
+	if !g.o.Strings && !g.o.Slices {
+		return false
+	}
+	in := g.ind(c)
+	ok := func(s *pgSym) bool {
+		return (s.ty == pgStr && g.o.Strings) || (s.ty.isSlice() && g.o.Slices)
+	}
+	l := g.visible(ok)
+	for len(l) < 2 {
+		n := g.fresh()
+		ty := pgStr
+		if g.o.Slices && (!g.o.Strings || g.p(60)) {
+			ty = []pgTy{pgSInt, pgSStr, pgSBool}[g.rn(3)]
+		}
+		e := g.genExpr(ty, c, 1)
+		g.line(in, n+" := "+e.s)
+		l = append(l, g.define(g.newSym(n, ty, e), c))
+	}
+	i := g.rn(len(l))
+	j := (i + 1 + g.rn(len(l)-1)) % len(l)
+	a, b := l[i], l[j]
+	bound := func(s *pgSym) int {
+		if s.ty == pgStr {
+			return s.hi
+		}
+		return pgLMax
+	}
+	la := pgExpr{s: "len(" + a.name + ")", prec: 6, bnd: bound(a)}
+	lb := pgExpr{s: "len(" + b.name + ")", prec: 6, bnd: bound(b)}
+	pure := g.fn != nil && g.fnPure
+	k := g.rn(5)
+	if k == 3 && c.depth+1 >= g.o.MaxDepth {
+		k = 4
+	}
+	if pure && (k == 0 || k == 4) {
+		k = 1
+	}
+	switch k {
+	case 0:
+		g.line(in, "print("+la.s+", "+lb.s+")")
+		g.f("print")
+	case 1:
+		n := g.fresh()
+		op := []string{"-", "+", "*"}[g.rn(3)]
+		g.line(in, n+" := "+la.s+" "+op+" "+lb.s)
+		g.define(g.newInt(n, pgMax(la.bnd*lb.bnd, la.bnd+lb.bnd)), c)
+	case 2:
+		n := g.fresh()
+		cmp := g.bin(la, pgCmpOps[g.rn(6)], 3, lb)
+		if g.p(40) {
+			cmp = g.bin(cmp, "||", 1, g.bin(la, pgCmpOps[g.rn(6)], 3, g.intLit()))
+		}
+		g.line(in, n+" := "+cmp.s)
+		g.define(&pgSym{name: n, ty: pgBool}, c)
+	case 3:
+		g.construct(c, "if")
+		g.line(in, "if "+g.bin(la, pgCmpOps[2+g.rn(4)], 3, lb).s+" {")
+		g.body(g.inner(c), nil, true)
+		if g.p(50) {
+			g.line(in, "} else {")
+			g.f("else")
+			g.body(g.inner(c), nil, true)
+		}
+		g.line(in, "}")
+	default:
+		g.line(in, "print("+la.s+" > "+lb.s+", "+la.s+" - "+lb.s+")")
+		g.f("print")
+	}
+	g.tick(c, 1)
+	g.f("len_pair")
+	return true
+}
+
+// sliceLoopBody writes the body of the slice_in_loop shape: a slice created per iteration, an alias
+// kept from the first iteration, reads and writes through both and a re-declared empty slice that grows.
+// It returns an int expression over the iteration's slices (for accumulation).
+func (g *pgGen) sliceLoopBody(in int, ety pgTy, iv string, keep string, quiet bool) string {
+	ty := ety.sliceOf()
+	s := g.handLocal(ty)
+	e := g.handLocal(ty)
+	lit := func(i int) string {
+		switch ety {
+		case pgInt:
+			return []string{iv, iv + " * 2", fmt.Sprint(g.rn(20)), iv + " + " + fmt.Sprint(1+g.rn(9))}[g.rn(4)]
+		case pgBool:
+			return []string{iv + " > 0", "true", "false", iv + " % 2 == 0"}[g.rn(4)]
+		}
+		return []string{`"` + g.strText(1+g.rn(2)) + `"`, "itoa(" + iv + ")"}[g.rn(2)]
+	}
+	n := 2 + g.rn(2)
+	el := []string{}
+	for i := 0; i < n; i++ {
+		el = append(el, lit(i))
+	}
+	if g.p(70) {
+		g.line(in, fmt.Sprintf("%s := %s{%s}", s, ty, strings.Join(el, ", ")))
+	} else {
+		g.line(in, fmt.Sprintf("var %s = %s{%s}", s, ty, strings.Join(el, ", ")))
+	}
+	g.f("slice_lit")
+	g.line(in, fmt.Sprintf("if %s == 0 {", iv))
+	g.line(in+1, keep+" = "+s)
+	g.line(in, "}")
+	g.f("if")
+	g.f("slice_alias")
+	switch ety {
+	case pgInt:
+		g.line(in, fmt.Sprintf("%s[0] = %s[0] + %d", s, s, 1+g.rn(20)))
+		g.line(in, fmt.Sprintf("%s[1] = %s[1] + 1", keep, keep))
+	case pgBool:
+		g.line(in, fmt.Sprintf("%s[0] = !%s[0]", s, s))
+		g.line(in, fmt.Sprintf("%s[1] = %s[1] != %s[1]", keep, keep, s))
+	default:
+		g.line(in, fmt.Sprintf("%s[0] = %s[0] + \"%s\"", s, s, g.strText(1)))
+		g.line(in, fmt.Sprintf("%s[1] = %s[1] + \"%s\"", keep, keep, g.strText(1)))
+		g.f("concat")
+	}
+	g.f("slice_set")
+	g.f("index")
+	g.line(in, fmt.Sprintf("var %s %s", e, ty))
+	if g.p(50) {
+		g.line(in, fmt.Sprintf("%s[len(%s)] = %s", e, e, lit(0)))
+		g.line(in, fmt.Sprintf("%s[len(%s)] = %s[0]", e, e, s))
+	} else {
+		g.line(in, fmt.Sprintf("%s[0] = %s", e, lit(0)))
+		g.line(in, fmt.Sprintf("%s[%d] = %s[1]", e, 1+g.rn(2), keep))
+	}
+	g.f("slice_grow")
+	if !quiet {
+		g.line(in, fmt.Sprintf("print(%s, %s[0], %s[1], %s[0], %s[1], len(%s), %s[0], %s[1])", iv, s, s, keep, keep, e, e, e))
+		g.f("print")
+	}
+	if ety == pgInt {
+		return fmt.Sprintf("%s[0] %% 10 + len(%s)", keep, e)
+	}
+	return fmt.Sprintf("len(%s) + len(%s)", s, e)
+}
+
+// idSliceInLoop: slices created inside a top-level loop and/or inside a loop of a function.
+func (g *pgGen) idSliceInLoop(c pgCtx) bool {
+	if !g.o.Slices || c.depth != 0 || g.fn != nil {
+		return false
+	}
+	ety := []pgTy{pgInt, pgInt, pgStr, pgBool}[g.rn(3+1)]
+	ty := ety.sliceOf()
+	where := g.rn(3) // 0 top level, 1 function, 2 both
+	if !g.o.Funcs {
+		where = 0
+	}
+	if where != 1 {
+		n := 2 + g.rn(3)
+		kn := g.fresh()
+		g.line(0, fmt.Sprintf("var %s %s", kn, ty))
+		keep := g.define(&pgSym{name: kn, ty: ty}, c)
+		keep.ro++
+		g.push()
+		iv := g.fresh()
+		g.define(g.counter(iv, 0, n-1), c)
+		g.line(0, fmt.Sprintf("for %s := 0; %s < %d; %s++ {", iv, iv, n, iv))
+		g.construct(c, "for3")
+		g.sliceLoopBody(1, ety, iv, kn, false)
+		g.line(0, "}")
+		g.pop()
+		keep.ro--
+		g.raise(keep, 2)
+		g.tick(c, n*9)
+	}
+	if where != 0 {
+		fname := g.fnName("build", "scan", "fill", "mkall")
+		quiet := !g.o.Effects
+		ps := g.handOpen(fname, []pgTy{pgInt}, "int")
+		kp := g.handLocal(ty)
+		t := g.handLocal(pgInt)
+		j := g.handLocal(pgInt)
+		g.line(1, fmt.Sprintf("var %s %s", kp, ty))
+		g.line(1, t+" := 0")
+		g.line(1, fmt.Sprintf("for %s := 0; %s < %s; %s++ {", j, j, ps[0], j))
+		g.f("for3")
+		acc := g.sliceLoopBody(2, ety, j, kp, quiet)
+		g.line(2, t+" += "+acc)
+		g.f("compound")
+		g.line(1, "}")
+		g.line(1, "return "+t)
+		g.handClose()
+		fn := g.regFunc(fname, []*pgSym{pgIntParam(3)}, []pgRet{{ty: pgInt, abs: 99}}, 2, 3*11+3, !quiet)
+		g.spend(fn, c, 1)
+		arg := 1 + g.rn(3)
+		if g.p(50) {
+			g.line(0, fmt.Sprintf("print(%s(%d))", fname, arg))
+		} else {
+			n := g.fresh()
+			g.line(0, fmt.Sprintf("%s := %s(%d)", n, fname, arg))
+			g.define(g.newInt(n, 99), c)
+		}
+	}
+	g.f("slice_in_loop")
+	return true
+}
+
+// idBigCopy: slices of 11..25 elements and strings of 11..30 bytes with two-digit lengths and indices.
+func (g *pgGen) idBigCopy(c pgCtx) bool {
+	if c.depth != 0 || g.fn != nil || (!g.o.Slices && !g.o.Strings) {
+		return false
+	}
+	doSlice := g.o.Slices && (!g.o.Strings || g.p(65))
+	doStr := g.o.Strings && (!doSlice || g.p(35))
+	if doSlice {
+		ety := []pgTy{pgInt, pgInt, pgStr, pgBool}[g.rn(4)]
+		ty := ety.sliceOf()
+		L := 11 + g.rn(15)
+		elem := func() string {
+			switch ety {
+			case pgInt:
+				return fmt.Sprint(g.rn(100) - 10)
+			case pgBool:
+				return []string{"true", "false"}[g.rn(2)]
+			}
+			return `"` + g.strText(1+g.rn(2)) + `"`
+		}
+		el := []string{}
+		for i := 0; i < L; i++ {
+			el = append(el, elem())
+		}
+		src := g.fresh()
+		g.define(&pgSym{name: src, ty: ty, hidden: true}, c)
+		dst := g.fresh()
+		g.define(&pgSym{name: dst, ty: ty, hidden: true}, c)
+		g.line(0, fmt.Sprintf("%s := %s{%s}", src, ty, strings.Join(el, ", ")))
+		g.f("slice_lit")
+		if g.p(50) {
+			g.line(0, fmt.Sprintf("var %s %s", dst, ty))
+		} else {
+			d := []string{}
+			for i, n := 0, g.rn(L+1); i < n; i++ {
+				d = append(d, elem())
+			}
+			g.line(0, fmt.Sprintf("%s := %s{%s}", dst, ty, strings.Join(d, ", ")))
+		}
+		i1, i2 := 10+g.rn(L-10), 10+g.rn(L-10)
+		if g.p(50) {
+			n := g.fresh()
+			g.line(0, fmt.Sprintf("%s := copy(%s, %s)", n, dst, src))
+			g.define(g.newInt(n, 30), c)
+			g.line(0, fmt.Sprintf("print(%s, len(%s), %s[%d], %s[%d])", n, dst, dst, i1, src, i2))
+		} else {
+			g.line(0, fmt.Sprintf("copy(%s, %s)", dst, src))
+			g.line(0, fmt.Sprintf("print(len(%s), len(%s), %s[%d], %s[%d])", dst, src, dst, i1, src, i2))
+		}
+		g.f("copy")
+		top := L + g.rn(3)
+		g.line(0, fmt.Sprintf("%s[%d] = %s", dst, top, elem()))
+		g.line(0, fmt.Sprintf("%s[%d] = %s[%d]", src, 10+g.rn(L-10), dst, top))
+		g.f("slice_grow")
+		g.f("slice_set")
+		acc := ""
+		if ety == pgInt {
+			acc = g.fresh()
+			g.line(0, acc+" := 0")
+			as := g.define(g.newInt(acc, 3000), c)
+			as.cur = as.hi
+		}
+		g.push()
+		iv := g.fresh()
+		g.define(&pgSym{name: iv, ty: pgInt, hidden: true}, c)
+		vv := g.fresh()
+		g.define(&pgSym{name: vv, ty: ety, hidden: true}, c)
+		g.line(0, fmt.Sprintf("for %s, %s := range %s {", iv, vv, dst))
+		g.construct(c, "range_slice")
+		if ety == pgInt {
+			g.line(1, fmt.Sprintf("if %s >= 10 {", iv))
+			g.line(2, fmt.Sprintf("%s += %s", acc, vv))
+			g.line(1, "}")
+			g.f("compound")
+		} else {
+			g.line(1, fmt.Sprintf("if %s >= 10 && %s %% 4 == 0 {", iv, iv))
+			g.line(2, fmt.Sprintf("print(%s, %s)", iv, vv))
+			g.line(1, "}")
+		}
+		g.f("if")
+		g.line(0, "}")
+		g.pop()
+		g.line(0, fmt.Sprintf("print(len(%s), %s[%d])", dst, dst, L-1))
+		if acc != "" {
+			g.line(0, "print("+acc+")")
+		}
+		g.tick(c, 8+3*(top+1))
+	}
+	if doStr {
+		n := 11 + g.rn(20)
+		sn := g.fresh()
+		g.line(0, fmt.Sprintf("%s := \"%s\"", sn, g.strText(n)))
+		g.define(&pgSym{name: sn, ty: pgStr, abs: n, hi: n, cur: n, minLen: n}, c)
+		i1 := 10 + g.rn(n-10)
+		a := 10 + g.rn(n-10)
+		b := a + g.rn(n-a+1)
+		g.line(0, fmt.Sprintf("print(%s[%d], %s[%d:%d], %s[:%d], %s[%d:], len(%s))", sn, i1, sn, a, b, sn, 10+g.rn(n-9), sn, 10+g.rn(n-9), sn))
+		g.f("subscript")
+		g.push()
+		iv := g.fresh()
+		g.define(&pgSym{name: iv, ty: pgInt, hidden: true}, c)
+		cv := g.fresh()
+		g.define(&pgSym{name: cv, ty: pgStr, hidden: true}, c)
+		g.line(0, fmt.Sprintf("for %s, %s := range %s {", iv, cv, sn))
+		g.construct(c, "range_string")
+		g.line(1, fmt.Sprintf("if %s >= 10 && %s %% %d == 0 {", iv, iv, 3+g.rn(4)))
+		g.line(2, fmt.Sprintf("print(%s, %s, %s[%s])", iv, cv, sn, iv))
+		g.line(1, "}")
+		g.f("if")
+		g.line(0, "}")
+		g.pop()
+		g.tick(c, 3+2*n)
+	}
+	g.f("print")
+	g.f("big_copy")
+	return true
+}
+
+// counterFn defines a global counter and a function that bumps it, prints and returns a small value.
+func (g *pgGen) counterFn(c pgCtx, budget int) (*pgFunc, *pgSym, int) {
+	cn := g.fresh()
+	if g.p(50) {
+		g.line(0, "var "+cn+" int")
+	} else {
+		g.line(0, cn+" := 0")
+	}
+	cnt := g.define(g.newInt(cn, 9), c)
+	cnt.hi = pgMax(cnt.hi, cnt.abs+budget+50)
+	cnt.cur += budget
+	fname := g.fnName("next", "tick", "bump", "seq")
+	g.handOpen(fname, nil, "int")
+	if g.p(60) {
+		g.line(1, cn+"++")
+		g.f("incdec")
+	} else {
+		g.line(1, cn+" += 1")
+		g.f("compound")
+	}
+	g.f("global_write_in_func")
+	if g.p(70) {
+		g.line(1, fmt.Sprintf("print(\"%s\", %s)", fname, cn))
+		g.f("print_in_func")
+	}
+	m := 3 + g.rn(4)
+	ret := pgRet{ty: pgInt, abs: m - 1}
+	if g.p(75) {
+		g.line(1, fmt.Sprintf("return %s %% %d", cn, m))
+	} else {
+		g.line(1, "return "+cn)
+		ret.abs, m = cnt.hi, budget
+	}
+	g.handClose()
+	return g.regFunc(fname, nil, []pgRet{ret}, budget, 3, true, cnt), cnt, m
+}
+
+// idSameCondChain: an else-if chain whose conditions compare the textually same effectful call.
+func (g *pgGen) idSameCondChain(c pgCtx) bool {
+	if !g.o.Funcs || !g.o.Effects || c.depth != 0 || g.fn != nil {
+		return false
+	}
+	k := 2 + g.rn(2)
+	n := 1
+	if g.maxIter(c) >= 2 && g.p(75) {
+		n = 2 + g.rn(pgMin(g.maxIter(c), 4)-1)
+	}
+	fn, _, m := g.counterFn(c, k*n+6)
+	ci := c
+	in := 0
+	if n > 1 {
+		g.push()
+		iv := g.fresh()
+		g.define(g.counter(iv, 0, n-1), c)
+		g.line(0, fmt.Sprintf("for %s := 0; %s < %d; %s++ {", iv, iv, n, iv))
+		g.construct(c, "for3")
+		ci = g.loopCtx(c, n)
+		in = 1
+	}
+	g.spend(fn, ci, k)
+	g.construct(ci, "if")
+	cb := g.inner(ci)
+	for i := 0; i < k; i++ {
+		cond := fmt.Sprintf("%s() == %d", fn.name, g.rn(pgMin(m, 9)+1))
+		if i == 0 {
+			g.line(in, "if "+cond+" {")
+		} else {
+			g.line(in, "} else if "+cond+" {")
+			g.f("elseif")
+		}
+		g.body(cb, nil, true)
+	}
+	if g.p(75) {
+		g.line(in, "} else {")
+		g.f("else")
+		g.body(cb, nil, true)
+	}
+	g.line(in, "}")
+	if n > 1 {
+		g.pop()
+		g.line(0, "}")
+	}
+	g.f("same_cond_chain")
+	return true
+}
+
+// idElseOnlyIf: an else block that consists of exactly one if statement, in a loop whose first
+// iterations take the outer if branch.
+func (g *pgGen) idElseOnlyIf(c pgCtx) bool {
+	if c.depth != 0 || g.fn != nil || g.o.MaxDepth < 3 || g.maxIter(c) < 2 {
+		return false
+	}
+	n := 2 + g.rn(pgMin(g.maxIter(c), 4)-1)
+	var chk *pgFunc
+	if g.o.Funcs && g.o.Effects {
+		cn := g.fresh()
+		g.line(0, "var "+cn+" int")
+		cnt := g.define(g.newInt(cn, 9), c)
+		budget := 3*n + 4
+		cnt.hi = pgMax(cnt.hi, cnt.abs+3*budget+50)
+		cnt.cur += 3 * budget
+		fname := g.fnName("chk", "probe", "test", "odd")
+		ps := g.handOpen(fname, []pgTy{pgInt}, "bool")
+		g.line(1, cn+" += "+ps[0])
+		g.line(1, fmt.Sprintf("print(\"%s\", %s)", fname, ps[0]))
+		g.line(1, fmt.Sprintf("return %s %% 2 == 0", cn))
+		g.f("compound")
+		g.f("global_write_in_func")
+		g.f("print_in_func")
+		g.handClose()
+		chk = g.regFunc(fname, []*pgSym{pgIntParam(3)}, []pgRet{{ty: pgBool}}, budget, 4, true, cnt)
+	}
+	g.push()
+	iv := g.fresh()
+	g.define(g.counter(iv, 0, n-1), c)
+	g.line(0, fmt.Sprintf("for %s := 0; %s < %d; %s++ {", iv, iv, n, iv))
+	g.construct(c, "for3")
+	ci := g.loopCtx(c, n)
+	outer := []string{fmt.Sprintf("%s < %d", iv, n-1), fmt.Sprintf("%s != %d", iv, g.rn(n)), iv + " % 2 == 0"}[g.rn(3)]
+	g.construct(ci, "if")
+	g.line(1, "if "+outer+" {")
+	g.body(g.inner(ci), nil, false)
+	g.line(1, "} else {")
+	g.f("else")
+	ce := g.inner(ci)
+	g.push()
+	cond := func() string {
+		if chk == nil {
+			return g.genCond(ce).s
+		}
+		g.spend(chk, ce, 1)
+		arg := []string{"1", "2", "3", iv}[g.rn(4)]
+		t := chk.name + "(" + arg + ")"
+		switch g.rn(4) {
+		case 0:
+			t = "!" + t
+		case 1:
+			t += " && " + iv + " > 0"
+		}
+		return t
+	}
+	g.construct(ce, "if")
+	g.line(2, "if "+cond()+" {")
+	g.body(g.inner(ce), nil, true)
+	if g.p(75) {
+		g.line(2, "} else if "+cond()+" {")
+		g.f("elseif")
+		g.body(g.inner(ce), nil, true)
+	}
+	if g.p(35) {
+		g.line(2, "} else {")
+		g.f("else")
+		g.body(g.inner(ce), nil, true)
+	}
+	g.line(2, "}")
+	g.pop()
+	g.line(1, "}")
+	g.pop()
+	g.line(0, "}")
+	g.f("else_only_if")
+	return true
+}
+
+// idCallStmtNested: a call statement whose result is unused with another call as argument.
+func (g *pgGen) idCallStmtNested(c pgCtx) bool {
+	if !g.o.Funcs || c.depth != 0 || g.fn != nil {
+		return false
+	}
+	if g.p(50) {
+		// two generated functions that fit together
+		for _, fn := range g.callable(c, func(fn *pgFunc) bool { return len(fn.params) > 0 }) {
+			fits := false
+			for _, pa := range fn.params {
+				fits = fits || len(g.callable(c, func(h *pgFunc) bool {
+					return h != fn && len(h.rets) == 1 && h.rets[0].ty == pa.ty && h.rets[0].minLen >= pa.minLen && (pa.ty != pgStr || h.rets[0].abs <= pa.abs)
+				})) > 0
+			}
+			if !fits {
+				continue
+			}
+			g.nestWant, g.nestGot = true, false
+			call := g.callText(fn, c)
+			g.nestWant = false
+			if g.nestGot {
+				g.line(0, call.s)
+				g.f("call_stmt")
+				g.f("call_stmt_nested")
+				return true
+			}
+			fn.budget += c.mult // not emitted
+			fn.called--
+			break
+		}
+	}
+	dn := g.fnName("double", "twice", "half", "succ")
+	ps := g.handOpen(dn, []pgTy{pgInt}, "int")
+	eff := g.o.Effects && g.p(60)
+	if eff {
+		g.line(1, fmt.Sprintf("print(\"%s\", %s)", dn, ps[0]))
+		g.f("print_in_func")
+	}
+	g.line(1, "return "+ps[0]+[]string{" * 2", " + " + ps[0], " / 2", " + 1"}[g.rn(4)])
+	g.handClose()
+	double := g.regFunc(dn, []*pgSym{pgIntParam(99)}, []pgRet{{ty: pgInt, abs: 999}}, 8, 2, eff)
+	arg := func() string { return fmt.Sprint(g.rn(10)) }
+	if g.p(50) {
+		tn := g.fresh()
+		g.line(0, "var "+tn+" int")
+		tot := g.define(g.newInt(tn, 9), c)
+		tot.hi = pgMax(tot.hi, tot.abs+6*999+50)
+		tot.cur += 6 * 999
+		an := g.fnName("add", "store", "keepSum", "push")
+		valued := g.o.Effects && g.p(60)
+		ret := ""
+		if valued {
+			ret = "int"
+		}
+		ps := g.handOpen(an, []pgTy{pgInt}, ret)
+		g.line(1, tn+" += "+ps[0])
+		g.f("compound")
+		g.f("global_write_in_func")
+		rets := []pgRet{}
+		if valued {
+			g.line(1, "return "+tn+" % 1000")
+			rets = []pgRet{{ty: pgInt, abs: 999}}
+		}
+		g.handClose()
+		add := g.regFunc(an, []*pgSym{pgIntParam(999)}, rets, 6, 2, true, tot)
+		g.spend(double, c, 1)
+		g.spend(add, c, 1)
+		g.line(0, fmt.Sprintf("%s(%s(%s))", an, dn, arg()))
+		if valued && g.p(50) {
+			g.spend(double, c, 1)
+			g.spend(add, c, 2)
+			g.line(0, fmt.Sprintf("%s(%s(%s(%s)))", an, an, dn, arg()))
+			g.f("call_stmt")
+		}
+		g.line(0, "print("+tn+")")
+	} else {
+		nn := g.fnName("name", "label", "tag", "title")
+		ps := g.handOpen(nn, []pgTy{pgInt}, "string")
+		g.line(1, fmt.Sprintf("return \"%s\" + itoa(%s)", g.strText(1+g.rn(2)), ps[0]))
+		g.handClose()
+		name := g.regFunc(nn, []*pgSym{pgIntParam(999)}, []pgRet{{ty: pgStr, abs: 7, minLen: 2}}, 6, 1, false)
+		tn := g.fnName("note", "show", "report", "log2")
+		ps = g.handOpen(tn, []pgTy{pgStr, pgInt}, "")
+		g.line(1, fmt.Sprintf("print(\"%s\", %s, %s)", tn, ps[0], ps[1]))
+		g.f("print_in_func")
+		g.handClose()
+		note := g.regFunc(tn, []*pgSym{{ty: pgStr, abs: 10, hi: 10, cur: 10, fac: 1}, pgIntParam(999)}, nil, 6, 1, true)
+		g.spend(name, c, 1)
+		g.spend(double, c, 1)
+		g.spend(note, c, 1)
+		g.line(0, fmt.Sprintf("%s(%s(%s), %s(%s))", tn, nn, arg(), dn, arg()))
+	}
+	g.f("call_as_arg")
+	g.f("call_stmt")
+	g.f("call_stmt_nested")
+	g.tick(c, 2)
+	return true
+}
+
+// idLoopCallsLoopFn: a three-clause loop calling a function with a condition-only loop, or vice versa.
+func (g *pgGen) idLoopCallsLoopFn(c pgCtx) bool {
+	if !g.o.Funcs || c.depth != 0 || g.fn != nil || g.maxIter(c) < 2 {
+		return false
+	}
+	n := 2 + g.rn(pgMin(g.maxIter(c), 4)-1)
+	pure := !g.o.Effects
+	if g.p(50) {
+		// callee: for n > 0 { }, caller: three-clause loop
+		fname := g.fnName("drain", "steps", "halve", "down")
+		ps := g.handOpen(fname, []pgTy{pgInt}, "int")
+		cv := g.handLocal(pgInt)
+		st := 1 + g.rn(3)
+		g.line(1, cv+" := 0")
+		g.line(1, fmt.Sprintf("for %s > 0 {", ps[0]))
+		g.line(2, fmt.Sprintf("%s -= %d", ps[0], st))
+		g.line(2, cv+"++")
+		if !pure && g.p(40) {
+			g.line(2, fmt.Sprintf("print(\"%s\", %s)", fname, ps[0]))
+			g.f("print_in_func")
+		} else {
+			pure = true
+		}
+		g.line(1, "}")
+		g.line(1, "return "+cv)
+		g.f("forcond")
+		g.f("compound")
+		g.f("incdec")
+		g.handClose()
+		fn := g.regFunc(fname, []*pgSym{pgIntParam(8)}, []pgRet{{ty: pgInt, abs: 8}}, n+3, 3*8+3, !pure)
+		g.push()
+		iv := g.fresh()
+		g.define(g.counter(iv, 0, n-1), c)
+		g.line(0, fmt.Sprintf("for %s := 0; %s < %d; %s++ {", iv, iv, n, iv))
+		g.construct(c, "for3")
+		ci := g.loopCtx(c, n)
+		g.spend(fn, ci, 1)
+		g.body(ci, func() {
+			arg := []string{iv + " + " + fmt.Sprint(1+g.rn(4)), iv + " * 2", iv}[g.rn(3)]
+			g.line(1, fmt.Sprintf("print(%s, %s(%s))", iv, fname, arg))
+			g.f("print")
+		}, false)
+		g.pop()
+		g.line(0, "}")
+	} else {
+		// callee: three-clause loop, caller: for m > 0 { }
+		fname := g.fnName("tri", "total", "sumTo", "upto")
+		ps := g.handOpen(fname, []pgTy{pgInt}, "int")
+		t := g.handLocal(pgInt)
+		j := g.handLocal(pgInt)
+		g.line(1, t+" := 0")
+		g.line(1, fmt.Sprintf("for %s := 0; %s < %s; %s++ {", j, j, ps[0], j))
+		g.line(2, fmt.Sprintf("%s += %s", t, []string{j, j + " * 2", "2", j + " % 2"}[g.rn(4)]))
+		g.line(1, "}")
+		g.line(1, "return "+t)
+		g.f("for3")
+		g.f("compound")
+		g.handClose()
+		fn := g.regFunc(fname, []*pgSym{pgIntParam(5)}, []pgRet{{ty: pgInt, abs: 99}}, n+3, 5+3, false)
+		mn := g.fresh()
+		g.line(0, fmt.Sprintf("%s := %d", mn, n))
+		m := g.define(g.counter(mn, 0, n-1), c)
+		g.line(0, fmt.Sprintf("for %s > 0 {", mn))
+		g.construct(c, "forcond")
+		ci := g.loopCtx(c, n)
+		g.spend(fn, ci, 1)
+		g.body(ci, func() {
+			g.line(1, mn+"--")
+			g.f("incdec")
+			g.f("minus_minus")
+			g.line(1, fmt.Sprintf("print(%s, %s(%s + 1))", mn, fname, mn))
+			g.f("print")
+		}, false)
+		g.line(0, "}")
+		g.release(m, 1)
+	}
+	g.f("loop_calls_loopfn")
+	return true
+}
+
+// useAllParams makes the body of fn use every parameter.
+func (g *pgGen) useAllParams(fn *pgFunc, c pgCtx) {
+	if !g.fnPure {
+		args := []string{`"` + fn.name + `"`}
+		for _, pa := range fn.params {
+			if pa.ty.isSlice() {
+				args = append(args, "len("+pa.name+")")
+			} else {
+				args = append(args, pa.name)
+			}
+		}
+		g.line(1, "print("+strings.Join(args, ", ")+")")
+		fn.effects = true
+		g.f("print")
+		g.f("print_in_func")
+		fn.cost++
+		return
+	}
+	terms, conds := []string{}, []string{}
+	bnd := 0
+	for _, pa := range fn.params {
+		switch {
+		case pa.ty == pgInt:
+			terms = append(terms, pa.name)
+			bnd += pa.hi
+		case pa.ty == pgBool:
+			conds = append(conds, pa.name)
+		case pa.ty == pgStr:
+			terms = append(terms, "len("+pa.name+")")
+			bnd += pa.hi
+		default:
+			terms = append(terms, "len("+pa.name+")")
+			bnd += pgLMax
+		}
+	}
+	if len(terms) == 0 {
+		terms = []string{"0"}
+	}
+	n := g.fresh()
+	g.line(1, n+" := "+strings.Join(terms, " + "))
+	s := g.define(g.newInt(n, bnd), c)
+	if len(conds) > 0 {
+		g.line(1, "if "+strings.Join(conds, " || ")+" {")
+		g.line(2, n+"++")
+		g.line(1, "}")
+		s.cur++
+		if s.cur > s.hi {
+			s.hi = s.cur
+		}
+		g.f("if")
+		g.f("incdec")
+	}
+	fn.cost += 2
+}
+
+// idManyParams: a function with nine parameters, all of them used, and a call of it.
+func (g *pgGen) idManyParams(c pgCtx) bool {
+	if !g.o.Funcs || c.depth != 0 || g.fn != nil {
+		return false
+	}
+	fn := g.genFunc(9)
+	if !g.canCall(fn, c) {
+		return true
+	}
+	call := g.callText(fn, c)
+	switch {
+	case len(fn.rets) == 0:
+		g.line(0, call.s)
+		g.f("call_stmt")
+	case len(fn.rets) == 1 && !fn.rets[0].ty.isSlice():
+		g.line(0, "print("+call.s+")")
+		g.f("print")
+	default:
+		names := []string{}
+		syms := []*pgSym{}
+		for _, rt := range fn.rets {
+			n := g.fresh(names...)
+			names = append(names, n)
+			syms = append(syms, g.newSym(n, rt.ty, pgExpr{bnd: rt.abs, minLen: rt.minLen}))
+		}
+		g.line(0, strings.Join(names, ", ")+" := "+call.s)
+		for _, s := range syms {
+			g.define(s, c)
+		}
+		g.f("def_call")
+	}
+	return true
 }
